@@ -289,3 +289,36 @@ func c11ModeSweep(r *fw.Rec, s azref.Spec, lo, hi int) {
 		r.NontrivialH(hash64s(fmt.Sprint("modesweep|", s, d)))
 	}
 }
+
+// c11SingleHighByte: messages whose ONLY byte above 0x7F is one given value (every value
+// 0x80..0xFF in turn), carried by a one-byte binary shift between ASCII characters.
+func c11SingleHighByte(r *fw.Rec) {
+	rng := r.Rng
+	for b := 0x80; b <= 0xFF; b++ {
+		enc := azref.NewEncoder()
+		for i := 0; i < 1+rng.Intn(4); i++ {
+			enc.Char(2 + rng.Intn(26))
+		}
+		enc.BinaryShift([]byte{byte(b)})
+		for i := 0; i < rng.Intn(5); i++ {
+			enc.Char(1 + rng.Intn(27))
+		}
+		want := latin1String(string(enc.Text()))
+		info := map[string]interface{}{"tokens": enc.Trace(), "expected": want}
+		got, err := azdec.NewDecoder().HighLevelDecode(enc.Bits())
+		r.Evals(1)
+		if err != nil || got != want {
+			r.Violation("model-mismatch", "aztec.highlevel:single-high-byte", fmt.Sprintf("HighLevelDecode of a message whose only high byte is %#x returned %q, %v; expected %q", b, got, err, want), info)
+			return
+		}
+		if sym, ok := azref.Build(azref.Spec{Compact: true, Layers: 2}, enc.Bits(), 3); ok && b%8 == 0 {
+			txt, derr := azDecodeMatrix(sym.Matrix, sym, false)
+			if derr != nil || txt != want {
+				r.Violation("model-mismatch", "aztec.decoder:single-high-byte", fmt.Sprintf("symbol whose only high byte is %#x decoded as %q, %v; expected %q", b, txt, derr, want), info)
+				return
+			}
+		}
+		r.Tally("single_high_byte_messages")
+	}
+	r.Nontrivial(fmt.Sprintf("single-high-byte/%d", rng.Uint64()))
+}
